@@ -8,6 +8,7 @@ import CfVerif.Proofs.C14Ow
 import CfVerif.Proofs.C14Lh
 import CfVerif.Proofs.C14Deck
 import CfVerif.Proofs.C14Misc
+import CfVerif.Proofs.C14Yaml
 namespace CfVerif.C14
 open CfVerif
 
@@ -131,6 +132,55 @@ theorem gen_led : Gen.C14.ledFilterSrc = "timing['time'] & 255 != 0 or led != 0 
     Gen.C14.ledAug = ["data += [timing['time'] & 255, led >> 8, led & 255, extra]", "data += [0, 0, 0, 0]"] ∧
     Gen.C14.ledWriteCall = ["self", "0", "bytearray(data)"] ∧
     Gen.C14.ledLedSrc = "int(R5) << 11 | int(G6) << 5 | int(B5) << 0" := by decide
+
+theorem gen_lh_file : Gen.C14.lhfWriteData = ["LighthouseConfigFileManager.TYPE_ID: LighthouseConfigFileManager.TYPE",
+      "LighthouseConfigFileManager.VERSION_ID: LighthouseConfigFileManager.VERSION",
+      "LighthouseConfigFileManager.SYSTEM_TYPE_ID: system_type", "LighthouseConfigFileManager.GEOS_ID: file_geos",
+      "LighthouseConfigFileManager.CALIBS_ID: file_calibs"] ∧
+    Gen.C14.lhfWriteTests = ["geo.valid", "calib.valid"] ∧
+    Gen.C14.lhfWriteLoops = ["(id, geo) in geos.items()", "(id, calib) in calibs.items()"] ∧
+    Gen.C14.lhfWriteAssigns = ["geo.as_file_object()", "calib.as_file_object()"] ∧
+    Gen.C14.lhfDump = ["yaml.dump(data, file)"] ∧ Gen.C14.lhfLoad = ["yaml.safe_load(file)"] ∧
+    Gen.C14.lhfReadChecks = ["LighthouseConfigFileManager.TYPE_ID not in data",
+      "data[LighthouseConfigFileManager.TYPE_ID] != LighthouseConfigFileManager.TYPE",
+      "LighthouseConfigFileManager.VERSION_ID not in data",
+      "data[LighthouseConfigFileManager.VERSION_ID] != LighthouseConfigFileManager.VERSION"] ∧
+    Gen.C14.lhfReadTests = Gen.C14.lhfReadChecks ++ ["LighthouseConfigFileManager.SYSTEM_TYPE_ID in data",
+      "LighthouseConfigFileManager.GEOS_ID in data", "LighthouseConfigFileManager.CALIBS_ID in data"] ∧
+    Gen.C14.lhfReadLoops = ["(id, geo) in data[LighthouseConfigFileManager.GEOS_ID].items()",
+      "(id, calib) in data[LighthouseConfigFileManager.CALIBS_ID].items()"] ∧
+    Gen.C14.lhfReadAssigns = ["data[LighthouseConfigFileManager.SYSTEM_TYPE_ID]", "LighthouseBsGeometry.from_file_object(geo)",
+      "LighthouseBsCalibration.from_file_object(calib)"] ∧
+    Gen.C14.lhfReadReturn = ["(result_geos, result_calibs, result_system_type)"] := by decide
+theorem gen_lh_file_objects : Gen.C14.lhfGeoAsFile = ["self.FILE_ID_ORIGIN: self.origin", "self.FILE_ID_ROTATION: self.rotation_matrix"] ∧
+    Gen.C14.lhfGeoFromFile = ["result = cls()", "result.origin = file_object[cls.FILE_ID_ORIGIN]",
+      "result.rotation_matrix = file_object[cls.FILE_ID_ROTATION]", "result.valid = True"] ∧
+    Gen.C14.lhfSweepAsFile = ["self.FILE_ID_PHASE: self.phase", "self.FILE_ID_TILT: self.tilt", "self.FILE_ID_CURVE: self.curve",
+      "self.FILE_ID_GIBMAG: self.gibmag", "self.FILE_ID_GIBPHASE: self.gibphase", "self.FILE_ID_OGEEMAG: self.ogeemag",
+      "self.FILE_ID_OGEEPHASE: self.ogeephase"] ∧
+    Gen.C14.lhfSweepFromFile = ["result = cls()", "result.phase = file_object[cls.FILE_ID_PHASE]",
+      "result.tilt = file_object[cls.FILE_ID_TILT]", "result.curve = file_object[cls.FILE_ID_CURVE]",
+      "result.gibmag = file_object[cls.FILE_ID_GIBMAG]", "result.gibphase = file_object[cls.FILE_ID_GIBPHASE]",
+      "result.ogeemag = file_object[cls.FILE_ID_OGEEMAG]", "result.ogeephase = file_object[cls.FILE_ID_OGEEPHASE]"] ∧
+    Gen.C14.lhfCalibAsFile = ["self.FILE_ID_SWEEPS: [self.sweeps[0].as_file_object(), self.sweeps[1].as_file_object()]",
+      "self.FILE_ID_UID: self.uid"] ∧
+    Gen.C14.lhfCalibFromFile = ["result = cls()", "sweeps = file_object[cls.FILE_ID_SWEEPS]",
+      "result.sweeps[0] = LighthouseCalibrationSweep.from_file_object(sweeps[0])",
+      "result.sweeps[1] = LighthouseCalibrationSweep.from_file_object(sweeps[1])", "result.uid = file_object[cls.FILE_ID_UID]",
+      "result.valid = True"] := by decide
+theorem gen_param_file : Gen.C14.pfWriteData = ["ParamFileManager.TYPE_ID: ParamFileManager.TYPE",
+      "ParamFileManager.VERSION_ID: ParamFileManager.VERSION", "ParamFileManager.PARAMS_ID: file_params"] ∧
+    Gen.C14.pfWriteEntry = "{'is_stored': param.is_stored, 'default_value': param.default_value, 'stored_value': param.stored_value}" ∧
+    Gen.C14.pfWriteLoops = ["(id, param) in params.items()"] ∧ Gen.C14.pfDump = ["yaml.dump(data, file)"] ∧
+    Gen.C14.pfLoad = ["yaml.safe_load(file)"] ∧
+    Gen.C14.pfReadChecks = ["ParamFileManager.TYPE_ID not in data", "data[ParamFileManager.TYPE_ID] != ParamFileManager.TYPE",
+      "ParamFileManager.VERSION_ID not in data", "data[ParamFileManager.VERSION_ID] != ParamFileManager.VERSION"] ∧
+    Gen.C14.pfReadTests = Gen.C14.pfReadChecks ++ ["ParamFileManager.PARAMS_ID in data"] ∧
+    Gen.C14.pfGetData = ["persistent_params = {}",
+      "persistent_params[id] = PersistentParamState(param['is_stored'], param['default_value'], param['stored_value'])",
+      "(id, param) in input_data.items()"] ∧
+    Gen.C14.pfReadReturn = ["persistent_params", "get_data(data[ParamFileManager.PARAMS_ID])", "{}"] ∧
+    Gen.C14.pfStateType = ["namedtuple('PersistentParamState', 'is_stored default_value stored_value')"] := by decide
 
 /-! ## EEPROM radio configuration -/
 
@@ -391,6 +441,65 @@ theorem ledtiming_layout (t : LedTiming) :
   ⟨led_record_cases t, ledWord_eq _ _ _ (ledG6_lt _) (ledB5_lt _), ledR5_lt _, ledG6_lt _, ledB5_lt _, ledExtra_eq _ _ _⟩
 
 example : ledImage [⟨10, 255, 0, 128, 3, 1, 2⟩, ⟨0, 0, 0, 0, 0, 0, 0⟩] = .ok [10, 0xF8, 0x10, 0x53, 0, 0, 0, 0] := by decide
+
+/-! ## YAML files.  TRUSTED: `yaml.safe_load(yaml.dump(v))` = `v.canon` (every dict sorted by key) on plain values -/
+
+/-- Lighthouse configuration file round trip: what `read` returns for the file `write` produced is, for every set
+of base stations, exactly the VALID geometries and calibrations (keyed by base station, in key order), each with
+the origin / rotation / sweep / uid values that were written, valid, and the written system type. -/
+theorem lh_file_roundtrip (geos : List (Int × FGeo)) (calibs : List (Int × FCalib)) (st : Y)
+    (h7 : ∀ p ∈ calibs, p.2.s0.f.length = 7 ∧ p.2.s1.f.length = 7) :
+    lhFileRead (lhFileDoc geos calibs st).canon =
+      .ok (sortEntries (geoEntries geos), sortEntries (calibEntries calibs), st.canon) :=
+  lh_file_roundtrip_aux geos calibs st h7
+
+/-- ... nothing is lost or invented: the returned entries are exactly the valid written ones. -/
+theorem lh_file_roundtrip_mem (geos : List (Int × FGeo)) (p : Key × FGeo) :
+    p ∈ sortEntries (geoEntries geos) ↔
+      ∃ q ∈ geos, q.2.valid = true ∧ p = (Key.int q.1, ⟨q.2.origin.canon, q.2.rotation.canon, true⟩) := by
+  rw [mem_sortEntries]
+  unfold geoEntries
+  simp only [List.mem_map, List.mem_filter]
+  constructor
+  · rintro ⟨q, ⟨hq, hv⟩, rfl⟩; exact ⟨q, hq, hv, rfl⟩
+  · rintro ⟨q, hq, hv, rfl⟩; exact ⟨q, ⟨hq, hv⟩, rfl⟩
+
+/-- Persistent-parameter file round trip: every parameter comes back with its three fields. -/
+theorem param_file_roundtrip (params : List (String × PState)) :
+    paramFileRead (paramFileDoc params).canon = .ok (sortEntries (paramEntries params)) :=
+  param_file_roundtrip_aux params
+
+/-- Rejection branches, proved outright for EVERY loaded dict: a missing or different type / version is refused with
+the corresponding message, by both readers, before anything else is looked at. -/
+theorem lh_file_rejects (l : List (Key × Y)) :
+    (dlookup l (.str "type") = none → lhFileRead (.dict l) = .error (.msg "Type field missing")) ∧
+    (∀ x, dlookup l (.str "type") = some x → x.isStr "lighthouse_system_configuration" = false →
+      lhFileRead (.dict l) = .error (.msg "Unsupported file type")) ∧
+    (∀ x, dlookup l (.str "type") = some x → x.isStr "lighthouse_system_configuration" = true →
+      dlookup l (.str "version") = none → lhFileRead (.dict l) = .error (.msg "Version field missing")) ∧
+    (∀ x y, dlookup l (.str "type") = some x → x.isStr "lighthouse_system_configuration" = true →
+      dlookup l (.str "version") = some y → y.isStr "1" = false →
+      lhFileRead (.dict l) = .error (.msg "Unsupported file version")) := by
+  refine ⟨fun h => ?_, fun x h hx => ?_, fun x h hx hv => ?_, fun x y h hx hv hy => ?_⟩
+  · exact lhFileRead_of_envelope_error _ _ (envelope_type_missing l _ _ _ _ _ h)
+  · exact lhFileRead_of_envelope_error _ _ (envelope_type_wrong l _ _ _ _ _ x h hx)
+  · exact lhFileRead_of_envelope_error _ _ (envelope_version_missing l _ _ _ _ _ x h hx hv)
+  · exact lhFileRead_of_envelope_error _ _ (envelope_version_wrong l _ _ _ _ _ x y h hx hv hy)
+
+theorem param_file_rejects (l : List (Key × Y)) :
+    (dlookup l (.str "type") = none → paramFileRead (.dict l) = .error (.msg "Type field missing")) ∧
+    (∀ x, dlookup l (.str "type") = some x → x.isStr "persistent_param_state" = false →
+      paramFileRead (.dict l) = .error (.msg "Unsupported file type")) ∧
+    (∀ x, dlookup l (.str "type") = some x → x.isStr "persistent_param_state" = true →
+      dlookup l (.str "version") = none → paramFileRead (.dict l) = .error (.msg "Version field missing")) ∧
+    (∀ x y, dlookup l (.str "type") = some x → x.isStr "persistent_param_state" = true →
+      dlookup l (.str "version") = some y → y.isStr "1" = false →
+      paramFileRead (.dict l) = .error (.msg "Unsupported file version")) := by
+  refine ⟨fun h => ?_, fun x h hx => ?_, fun x h hx hv => ?_, fun x y h hx hv hy => ?_⟩
+  · exact paramFileRead_of_envelope_error _ _ (envelope_type_missing l _ _ _ _ _ h)
+  · exact paramFileRead_of_envelope_error _ _ (envelope_type_wrong l _ _ _ _ _ x h hx)
+  · exact paramFileRead_of_envelope_error _ _ (envelope_version_missing l _ _ _ _ _ x h hx hv)
+  · exact paramFileRead_of_envelope_error _ _ (envelope_version_wrong l _ _ _ _ _ x y h hx hv hy)
 
 example : i2cImage { version := 1, channel := 80, speed := 2, pitch := 0, roll := 0x3f800000, address := some 0xE7E7E7E7E7 } =
     .ok [48, 120, 66, 67, 1, 80, 2, 0, 0, 0, 0, 0, 0, 128, 63, 231, 231, 231, 231, 231, 194] := by decide
